@@ -110,6 +110,8 @@ impl WorkerTree {
 
         if self.has_configuration_changed(worker.configuration()) {
             log::debug!("configuration change detected");
+            #[cfg(feature = "verif-hooks")]
+            super::verif_hooks::verif_probe("config_reset");
             self.reset();
         }
 
@@ -120,6 +122,8 @@ impl WorkerTree {
             .count();
 
         if total_not_done == 0 {
+            #[cfg(feature = "verif-hooks")]
+            super::verif_hooks::verif_probe("process_nothing_to_do");
             return Ok(());
         }
 
@@ -151,6 +155,8 @@ impl WorkerTree {
                                         }
                                     }
                                     WorkStatus::InProgress(progress) => {
+                                        #[cfg(feature = "verif-hooks")]
+                                        super::verif_hooks::verif_probe("requeue_required_content");
                                         for content in progress.required_content() {
                                             if let Some(content_node_index) =
                                                 self.node_map.get(content)
@@ -177,6 +183,8 @@ impl WorkerTree {
                                         log::debug!(
                                             "dropping all work because the fail-fast option is enabled"
                                         );
+                                        #[cfg(feature = "verif-hooks")]
+                                        super::verif_hooks::verif_probe("fail_fast_break");
                                         break 'work_loop;
                                     }
                                 }
@@ -207,6 +215,8 @@ impl WorkerTree {
                     }
                 }
                 Err(_cycle_err) => {
+                    #[cfg(feature = "verif-hooks")]
+                    super::verif_hooks::verif_probe("cyclic_work");
                     return Err(DarkluaError::cyclic_work(
                         self.graph
                             .node_weights()
@@ -238,6 +248,8 @@ impl WorkerTree {
 
         for path in self.remove_files.drain(..) {
             log::trace!("remove file {}", path.display());
+            #[cfg(feature = "verif-hooks")]
+            super::verif_hooks::verif_probe("clean_files_remove");
             if let Err(err) = resources.remove(&path).map_err(DarkluaError::from) {
                 log::warn!("failed to remove resource: {}", err);
             } else if let Some(structure) = self.output_structure.as_ref() {
@@ -248,6 +260,8 @@ impl WorkerTree {
                     if !structure.contains_key(ancestor)
                         && resources.is_empty_directory(ancestor).unwrap_or_default()
                     {
+                        #[cfg(feature = "verif-hooks")]
+                        super::verif_hooks::verif_probe("clean_files_prune_directory");
                         if let Err(err) = resources.remove(ancestor).map_err(DarkluaError::from) {
                             log::warn!("failed to remove resource: {}", err);
                         }
@@ -343,6 +357,8 @@ impl WorkerTree {
             .unwrap_or_default();
 
         for index in node_indexes {
+            #[cfg(feature = "verif-hooks")]
+            super::verif_hooks::verif_probe("external_dependency_restart");
             self.restart_work(index);
         }
     }
@@ -436,6 +452,10 @@ impl WorkerTree {
                 .node_weight_mut(dependent_node)
                 .expect("node index should exist");
 
+            #[cfg(feature = "verif-hooks")]
+            if dependent_node != node_index {
+                super::verif_hooks::verif_probe("restart_reaches_dependent");
+            }
             log::debug!("restart work for {}", item.source().display());
             for path in item.external_file_dependencies.iter() {
                 if let Some(container) = self.external_dependencies.get_mut(path) {
